@@ -771,7 +771,12 @@ def gaussian_cases(ctx, cuqi, state, cases, stats):
                         elif form == "sqrtcov":
                             Mx = fr_mm(L, fr_T(L))          # a SYMMETRIC square root: cov = M^2 in both readings
                         else:
-                            Mx = Li if rep % 2 == 0 else [[Fraction(rng.randint(-2, 2)) + (3 if i == j else 0) for j in range(n)] for i in range(n)]
+                            Mx = Li
+                            if counter % 2 == 1:        # a general (non-triangular) nonsingular integer square root
+                                while True:
+                                    Mx = [[Fraction(rng.randint(-2, 2)) + (4 if i == j else 0) for j in range(n)] for i in range(n)]
+                                    if fr_solve_det(Mx, [Fraction(0)] * n)[1] != 0:
+                                        break
                         meta["P"] = [[float(v) for v in r] for r in Mx]
                     vias = ["direct"] + ([["cond_mean", "callable", "logd_mean"][counter % 3]] if gk in ("scalar", "vector", "densefull") else [])
                     for via in vias:
@@ -1085,6 +1090,15 @@ def run(ctx):
     scalar_family_cases(ctx, cuqi, state, cases, stats)
     gaussian_cases(ctx, cuqi, state, cases, stats)
     mrf_cases(ctx, cuqi, state, cases, stats)
+    # spread the expensive cases (76 x 76 exact determinants) over the shards so that they are evaluated in parallel
+    heavy = [c for c in cases if "/densefull/dim" in c.cell]
+    light = [c for c in cases if "/densefull/dim" not in c.cell]
+    cases = []
+    for i, c in enumerate(light):
+        if i % 45 == 0 and heavy:
+            cases.append(heavy.pop())
+        cases.append(c)
+    cases += heavy
     return Result(cases=cases, rule=RULE, extra={"c04_stats": stats, "c04_state": {k: v for k, v in state.items() if k != "witness"}},
                   assumptions=["lnGamma at shapes that are not integers or half-integers enters as a certificate value from scipy.special.gammaln, cross-checked against libm lgamma to 1e-12",
                                "the difference operator matrices of cuqi.operator (subject of C20) are re-derived by the model and compared entry-wise through D(x-loc); the oracle for the MRFs takes the operator's matrix as given",
